@@ -213,7 +213,8 @@ impl RenderContext {
         let tf = match &self.image_header.metadata.colour_encoding {
             ColourEncoding::Enum(e) => e.tf,
             ColourEncoding::IccProfile(_) => {
-                let icc = self.embedded_icc().unwrap();
+                // The embedded profile can be empty.
+                let icc = self.embedded_icc()?;
                 jxl_color::icc::icc_tf(icc)?
             }
         };
